@@ -1,13 +1,14 @@
 #!/bin/bash
-# tools/try_mutation.sh <patch.diff> <Cxx> [<Cyy> ...] — apply a seeded change to /repo, run the quick
-# checks, ALWAYS undo it afterwards. Prints one line per check.
-patch="$1"; shift
-cd /repo || exit 2
-if ! git diff --quiet; then echo "/repo is dirty"; exit 2; fi
-git apply "$patch" || { echo "patch does not apply"; exit 2; }
-trap 'git -C /repo checkout -- .' EXIT
+# tools/try_mutation.sh <patch.diff> <Cxx> [<Cyy> ...] - apply a seeded change to a scratch worktree of /repo's HEAD
+# (selected through VERIF_REPO; /repo itself is not touched), run the quick checks against it, remove the worktree.
+# Evidence / replays of these runs go to .scratch/seeded-out. VERIF_SEED is honoured. Prints one line per check.
+patch="$(realpath "$1")"; shift
+wt=$(mktemp -u /tmp/trymut-XXXXXX)
+git -C /repo worktree add --detach "$wt" HEAD -q || exit 2
+trap 'git -C /repo worktree remove --force "$wt"; rm -rf "$wt"' EXIT
+git -C "$wt" apply "$patch" || { echo "patch does not apply"; exit 2; }
 cd /verif
 for c in "$@"; do
-  out=$(./check "$c" --tier quick 2>&1 | tail -2 | tr '\n' ' ')
+  out=$(VERIF_REPO="$wt" VERIF_OUT=/verif/.scratch/seeded-out ./check "$c" --tier ${TIER:-quick} 2>&1 | tail -2 | tr '\n' ' ')
   echo "[$c] $out"
 done
